@@ -308,12 +308,18 @@ def close(a, b, scale=1.0):
 
         if isinstance(a, float) and math.isnan(a) or isinstance(b, float) and math.isnan(b):
             return False
+        if math.isinf(a) or math.isinf(b):
+            return a == b  # an infinite value is never "close" to a finite one (inf <= inf would pass below)
         return abs(a - b) <= Tol.atol * scale + Tol.rtol * max(abs(a), abs(b), scale)
     return a == b
 
 
 def le(a, b, scale=1.0):
     if _conc(a, b) and (isinstance(a, float) or isinstance(b, float)):
+        import math
+
+        if math.isinf(a) or math.isinf(b):
+            return a <= b
         return a <= b + Tol.atol * scale + Tol.rtol * max(abs(a), abs(b), scale)
     return a <= b
 
